@@ -91,6 +91,16 @@ CLAIMED = {
    text="For generated shapes of every kind with degree 1..3 segments the patches added to the axes are parsed (LINETO/CURVE3/CURVE4) and each piece is compared with the corresponding Bezier segment at 5 parameters; patch counts per component/boundary, closure, fill vs hole-in-background colouring, Empty/Whole behaviour and immutability of the shape are checked.",
    note="Trusted: matplotlib's documented path codes; the vertex stored with CLOSEPOLY is ignored by matplotlib and not inspected.",
    ref="4/C20"),
+ "C08": dict(
+   technique="property-based testing (Hypothesis): generated operation histories followed by an in-place mutation; exact snapshots of operands and results before/after (model of the operands as generated)",
+   text="Generated operand pairs (every short-cut path and recombination), 1-2 operations out of all operators, queries, copies, plot and constructors, then move/scale/rotate/invert of the result or of an operand: operands must still carry their boundary (same curves, orientation, exact area, re-split vertices on the original curve) and the bit-exact structural snapshot of every other object must not change when one is mutated.",
+   note="Trusted: exact on-segment predicate of the reference; capped crossing vertices (denominator > 1e8) may be off an edge by 1e-15.",
+   ref="4/C08"),
+ "C10": dict(
+   technique="property-based testing (Hypothesis): generated operation histories (lists of steps shrunk as one value) with a differential oracle against fresh twins (deepcopy and rebuild from control points); sub-process differentials over PYTHONHASHSEED and warm/cold memo tables",
+   text="Histories of in-place transformations, operators between bundle members (operands re-split and reused), complements, clean/split and queries; after every step the touched objects must answer area, signed lengths, box and membership exactly like a deepcopy and like an object rebuilt from their current control points, asking twice gives identical answers, and at the end also ==, containment and an operator with a third shape agree; digests of all answers are byte-identical across fresh interpreters with hash seeds 0/1/2 and warm memo tables.",
+   note="Trusted: nothing but the library itself on a fresh object (differential); histories whose operators raise (contact configurations created by reusing results) end there and are counted.",
+   ref="4/C10"),
 }
 NOT_YET = "check not built yet in this round (planned, see DESIGN.md section 4); nothing is claimed for it"
 
